@@ -12,70 +12,17 @@ CVC5_TIMEOUT_MS = int(os.environ.get('PYVC_CVC5_TIMEOUT_MS', '30000'))
 
 
 # ---------------------------------------------------------------------------------------------------------------------
-# nth on sequences of sequences (lists of str).  z3 4.8.12 and 5.1.0 answer `unsat` on satisfiable inputs in which `seq.nth` is applied
-# to a Seq(String) that can be empty (pyvc/selftest/solver/: the sequence theory uses the in-bounds variant seq.nth_i of an *empty* sequence
-# of strings as if it denoted something, mixing the two levels of sequences).  Every query therefore goes to the solvers with nth on
-# nested sequences replaced by an uninterpreted function tied to the theory only where the index is in bounds:
-#     0 <= i < len(s)  ->  seq.at-style extract(s, i, 1) == unit(nth_of(s, i))
-# (what Python's xs[i] means for an index in bounds; out of bounds the executor has an IndexError exit and nothing is assumed).
-# GUARD_NESTED_NTH=0 switches the replacement off (used by the self-test that shows the wrong answer).
-_nth_fns = {}
-def _nth_fn(seq_sort):
-    k = str(seq_sort)
-    if k not in _nth_fns:
-        _nth_fns[k] = z3.Function('nth_of_' + k.replace(' ', '_').replace('(', '_').replace(')', ''), seq_sort, z3.IntSort(), seq_sort.basis())
-    return _nth_fns[k]
-def _is_nested(seq_sort):
-    return seq_sort.kind() == z3.Z3_SEQ_SORT and seq_sort.basis().kind() == z3.Z3_SEQ_SORT
-def guard_nested_nth(fs):
-    """(fs', axioms): every nth on a sequence of sequences replaced by an uninterpreted function, tied to the theory through seq.at"""
-    cache = {}; used = {}
-    def go(e):
-        i = e.get_id()
-        if i in cache: return cache[i]
-        if z3.is_quantifier(e):
-            body = go(e.body())
-            if body.get_id() == e.body().get_id(): r = e
-            else:
-                vs = [z3.Const(e.var_name(k), e.var_sort(k)) for k in range(e.num_vars())]
-                inst = z3.substitute_vars(body, *reversed(vs))
-                pats = []
-                for pi in range(e.num_patterns()):
-                    p = e.pattern(pi)
-                    pats.append(z3.MultiPattern(*[z3.substitute_vars(go(p.arg(k)), *reversed(vs)) for k in range(p.num_args())]) if p.num_args() > 1
-                                else z3.substitute_vars(go(p.arg(0)), *reversed(vs)))
-                try: r = z3.ForAll(vs, inst, patterns=pats) if e.is_forall() else z3.Exists(vs, inst)
-                except z3.Z3Exception: r = z3.ForAll(vs, inst) if e.is_forall() else z3.Exists(vs, inst)
-            cache[i] = r; return r
-        if not z3.is_app(e) or e.num_args() == 0:
-            cache[i] = e; return e
-        args = [go(c) for c in e.children()]
-        d = e.decl()
-        if d.name() in ('seq.nth', 'seq.nth_i', 'seq.nth_u') and _is_nested(args[0].sort()):
-            f = _nth_fn(args[0].sort()); used[str(args[0].sort())] = (f, args[0].sort())
-            r = f(args[0], args[1])
-        elif all(a.get_id() == c.get_id() for a, c in zip(args, e.children())): r = e
-        else: r = d(*args)
-        cache[i] = r; return r
-    out = [go(f) for f in fs]
-    ax = []
-    for f, srt in used.values():
-        s = z3.Const('s!nn', srt); i = z3.Int('i!nn')
-        ax.append(z3.ForAll([s, i], z3.Implies(z3.And(0 <= i, i < z3.Length(s)), z3.SubSeq(s, i, 1) == z3.Unit(f(s, i))), patterns=[f(s, i)]))
-        # nth over the constructors (what the sequence theory says about nth natively): concatenation and the unit sequence
-        a_, b_ = z3.Const('a!nn', srt), z3.Const('b!nn', srt); x_ = z3.Const('x!nn', srt.basis())
-        ax.append(z3.ForAll([a_, b_, i], z3.Implies(z3.And(0 <= i, i < z3.Length(a_)), f(z3.Concat(a_, b_), i) == f(a_, i)), patterns=[f(z3.Concat(a_, b_), i)]))
-        ax.append(z3.ForAll([a_, b_, i], z3.Implies(z3.And(z3.Length(a_) <= i, i < z3.Length(a_) + z3.Length(b_)), f(z3.Concat(a_, b_), i) == f(b_, i - z3.Length(a_))), patterns=[f(z3.Concat(a_, b_), i)]))
-        ax.append(z3.ForAll([x_], f(z3.Unit(x_), 0) == x_, patterns=[f(z3.Unit(x_), 0)]))
-        # (the same fact in the shape loop invariants over prefixes use: the prefix of length i+1 is the prefix of length i and the i-th item)
-        ax.append(z3.ForAll([s, i], z3.Implies(z3.And(0 <= i, i < z3.Length(s)), z3.SubSeq(s, 0, i + 1) == z3.Concat(z3.SubSeq(s, 0, i), z3.Unit(f(s, i)))), patterns=[f(s, i)]))
-    return out, ax
-
-GUARD = os.environ.get('PYVC_GUARD_NESTED_NTH', '1') != '0'
+# No sequences of sequences in solver queries (pyvc/unnest.py): z3 4.8.12 and 5.1.0 answer `unsat` on satisfiable inputs that mix
+# quantifiers with sequences of strings (pyvc/selftest/solver/).  Every formula is translated into an isomorphic one over boxed
+# elements just before it reaches a solver; PYVC_UNNEST=0 switches the translation off (used to show the wrong answers).
+from . import unnest as _unnest
+GUARD = os.environ.get('PYVC_UNNEST', '1') != '0'
 def guarded(fs):
-    if not GUARD: return list(fs)
-    out, ax = guard_nested_nth(list(fs))
-    return out + ax
+    fs = list(fs)
+    if not GUARD: return fs
+    out = _unnest.unnest(fs)
+    if _unnest.has_nested(out): raise RuntimeError('a sequence of sequences survived the translation of pyvc/unnest.py')
+    return out
 
 class Obligation(object):
     def __init__(self, name, hyps, goal, kind='post', function=None, where=None, carries_property=False,
@@ -91,12 +38,12 @@ class Obligation(object):
         self.result = None; self.backend = None; self.solver_s = 0.0; self.model = None; self.reason = None
         self.backends_tried = []
 
-    def formulas(self):
+    def formulas(self, native=False):
         fs = self._formulas()
         if self.abstract_nonlinear:
             cache = {}
             fs = [abstract_nl(f, cache) for f in fs]
-        return guarded(fs)
+        return fs if native else guarded(fs)
 
     def _formulas(self):
         fs = list(self.hyps) + [z3.Not(self.goal)]
@@ -111,9 +58,11 @@ class Obligation(object):
         ax = speclib.instantiate(fs, depth=self.unfold_depth, skip=skip)
         return fs + ax
 
-    def to_smt2(self):
+    def to_smt2(self, native=False):
+        """SMT-LIB text of the query; native=True: without the translation of pyvc/unnest.py (for cvc5, which does not share z3's trouble with
+        sequences of strings and is much better on them than on the boxed form)"""
         s = z3.Solver()
-        s.add(*self.formulas())
+        s.add(*self.formulas(native=native))
         return '(set-logic ALL)\n' + s.to_smt2()
 
     def summary(self):
@@ -252,7 +201,7 @@ def _model_dict(m):
 
 def _is_countermodel(m, ob):
     try:
-        gh = guard_nested_nth([ob.goal] + list(ob.hyps))[0] if GUARD else [ob.goal] + list(ob.hyps)      # the model speaks about the guarded formulas
+        gh = guarded([ob.goal] + list(ob.hyps))      # the model speaks about the translated formulas
         g = m.eval(gh[0], model_completion=True)
         if z3.is_true(g): return False
         for h in gh[1:]:
@@ -319,7 +268,7 @@ def _portable(txt):
     return _FP.sub('fp_arg', txt.replace('seq.nth_u', 'seq.nth').replace('seq.nth_i', 'seq.nth'))
 
 def run_cvc5(ob, timeout_ms=None):
-    txt = _portable(ob.to_smt2())
+    txt = _portable(ob.to_smt2(native=True))
     # z3 prints (declare-fun f () T) and seq.empty with `as`; cvc5 1.0 accepts these. Strings need --strings-exp.
     fd, path = tempfile.mkstemp(suffix='.smt2', prefix='pyvc_')
     os.write(fd, txt.encode()); os.close(fd)
@@ -344,12 +293,14 @@ def _race(ob, z3_ms, cvc5_ms):
     """z3 (CLI) and cvc5 (CLI) on the same SMT-LIB text, concurrently; first definite answer wins"""
     txt = _portable(ob.to_smt2())
     fd, path = tempfile.mkstemp(suffix='.smt2', prefix='pyvc_'); os.write(fd, txt.encode()); os.close(fd)
+    txt_n = _portable(ob.to_smt2(native=True))      # cvc5 reads the query as generated, z3 the one without sequences of sequences
+    fd, path_n = tempfile.mkstemp(suffix='.smt2', prefix='pyvc_n_'); os.write(fd, txt_n.encode()); os.close(fd)
     procs = {
         'z3': subprocess.Popen(['z3-new', '-T:%d' % max(1, z3_ms // 1000), path], stdout=subprocess.PIPE, stderr=subprocess.STDOUT, text=True),
         'z3-seed1': subprocess.Popen(['z3-new', '-T:%d' % max(1, z3_ms // 1000), 'smt.random_seed=1', 'sat.random_seed=1', path], stdout=subprocess.PIPE, stderr=subprocess.STDOUT, text=True),
         'z3-seed2': subprocess.Popen(['z3-new', '-T:%d' % max(1, z3_ms // 1000), 'smt.random_seed=7', 'smt.arith.solver=2', path], stdout=subprocess.PIPE, stderr=subprocess.STDOUT, text=True),
         'z3-old': subprocess.Popen(['/usr/bin/z3', '-T:%d' % max(1, z3_ms // 1000), path], stdout=subprocess.PIPE, stderr=subprocess.STDOUT, text=True),
-        'cvc5': subprocess.Popen(['/usr/bin/cvc5', '--strings-exp', '--tlimit=%d' % cvc5_ms, path], stdout=subprocess.PIPE, stderr=subprocess.STDOUT, text=True),
+        'cvc5': subprocess.Popen(['/usr/bin/cvc5', '--strings-exp', '--tlimit=%d' % cvc5_ms, path_n], stdout=subprocess.PIPE, stderr=subprocess.STDOUT, text=True),
     }
     t0 = time.time(); results = {}
     deadline = t0 + max(z3_ms, cvc5_ms) / 1000.0 + 5
@@ -373,8 +324,9 @@ def _race(ob, z3_ms, cvc5_ms):
         for p in procs.values():
             try: p.kill()
             except Exception: pass
-        try: os.unlink(path)
-        except OSError: pass
+        for p_ in (path, path_n):
+            try: os.unlink(p_)
+            except OSError: pass
 
 def discharge(ob, both=False):
     """in-process z3 with a short budget first (most obligations take milliseconds); then z3 and cvc5
@@ -418,10 +370,10 @@ def discharge_all(obls, both=False, jobs=None):
         if r == 'unknown': hard.append(ob)
         else:
             ob.result, ob.model, ob.reason = r, m, why
-    texts = {id(ob): ob.to_smt2() for ob in hard}
+    texts = {id(ob): (ob.to_smt2(), ob.to_smt2(native=True)) for ob in hard}
     def work(ob):
         class _O(object): pass
-        o = _O(); o.to_smt2 = lambda: texts[id(ob)]
+        o = _O(); o.to_smt2 = lambda native=False: texts[id(ob)][1 if native else 0]
         return _race(o, Z3_TIMEOUT_MS, CVC5_TIMEOUT_MS)
     if hard:
         with ThreadPoolExecutor(max_workers=3) as tp:
@@ -442,10 +394,10 @@ def discharge_all(obls, both=False, jobs=None):
                     ob.result, ob.reason = 'unknown', 'z3 sat not confirmed by a counter-model'
     if both:
         easy = [o for o in pending if o not in hard]
-        texts2 = {id(ob): ob.to_smt2() for ob in easy}
+        texts2 = {id(ob): ob.to_smt2(native=True) for ob in easy}
         def work2(ob):
             class _O(object): pass
-            o = _O(); o.to_smt2 = lambda: texts2[id(ob)]
+            o = _O(); o.to_smt2 = lambda native=True: texts2[id(ob)]
             return run_cvc5(o)
         with ThreadPoolExecutor(max_workers=jobs or 8) as tp:
             for ob, (r2, dt2, _, why2) in zip(easy, tp.map(work2, easy)):
